@@ -58,6 +58,10 @@ func (t *TaskExecutor[T]) ExecuteAt(identifier T, callback func(), executionTime
 
 	if scheduledTask != nil {
 		t.queuedElements.Set(identifier, scheduledTask)
+	} else {
+		// the executor was shut down and refused the task: the previous task of this identifier was canceled above, so
+		// there is nothing left that could be canceled
+		t.queuedElements.Delete(identifier)
 	}
 
 	return scheduledTask
